@@ -140,6 +140,16 @@ def rand_skip(rng, live):
 
 
 def gen_random_case(rng):
+    if rng.randrange(8) == 0:
+        # pattern ends inside the buffered bits: ACCEPT in the first bit loop,
+        # then bits_need(32) with enough / one more word / nothing left
+        live = rng.randrange(48, 64)
+        n = rng.choice([0, 0, 1, 1, 2, 3])
+        total = live + 32 * n
+        bits = plant(background(rng, total), rng.randrange(0, live - 47))
+        skip = rng.choice([0, 0, rng.randrange(0, live + 1)])
+        live, buff, words = pack(bits, live)
+        return live, buff, skip, words
     live = rng.randrange(64)
     n = rng.choice([0, 0, 1, 1, 2, 3, 3, 4, 5, 6, 8, 10, 12])
     total = live + 32 * n
@@ -262,12 +272,94 @@ def classify(case):
         tags.append('clamped' if k > len(words) else 'not-clamped')
     if i is None:
         k = tail.find(PBITS)
-        tags.append('MORE:none' if k < 0 else 'MORE:truncated')
+        inbuf = (live - e) if e < live else 0
+        tags.append('MORE:none' if k < 0 else
+                    'MORE:truncated:bitloop' if k + 48 <= inbuf else
+                    'MORE:truncated:wordloop')
     else:
         pend = i - 32                     # pattern end relative to e
         inbuf = (live - e) if e < live else 0
-        tags.append('OK:bitloop' if pend <= inbuf else 'OK:wordloop')
+        if pend <= inbuf:
+            tags.append('OK:bitloop:buffered32' if inbuf - pend >= 32
+                        else 'OK:bitloop:load')
+        else:
+            tags.append('OK:wordloop:o%d' % ((pend - inbuf - 1) % 32 // 8 * 8))
     return tags, max_state(tail)
+
+
+# ------------------------------------------------------------- chunk worker
+def run_chunk(job):
+    """Runs one chunk through the C harness, the Lean driver and the python
+    oracle.  Pure function of its arguments (picklable for the pool)."""
+    import random
+    h, drv, cases, seed, count = job
+    if cases is None:
+        rng = random.Random(seed)
+        cases = [gen_random_case(rng) for _ in range(count)]
+    res = {'evaluations': 0, 'seen': set(), 'nontrivial': set(), 'mism': 0,
+           'dist': {}, 'samples': [], 'log': [], 'violations': [],
+           'broken': []}
+    dist = res['dist']
+    reqs = [req(c) for c in cases]
+    rc_c, out_c, err_c = batch([h], ['scan ' + r for r in reqs], timeout=3000)
+    rc_m, out_m, err_m = batch(
+        [drv], ['scan ' + r for r in reqs] + ['scan.occ ' + r for r in reqs],
+        timeout=3000)
+    if rc_m != 0 or len(out_m) != 2 * len(cases):
+        res['broken'].append('correspondence: driver died (rc %s): %s' %
+                             (rc_m, err_m[-300:]))
+        return res
+    c_died = rc_c != 0 or len(out_c) != len(cases)
+    for k, case in enumerate(cases):
+        if k >= len(out_c):
+            # the harness aborted on this request (sanitizer / assert)
+            res['violations'].append((
+                'scan() aborted (sanitizer or assertion): ' +
+                err_c[-400:].replace('\n', ' | '),
+                {'request': 'scan ' + reqs[k],
+                 'how': 'echo "<request>" | h_scan (harness/h_scan.c)'}))
+            break
+        res['evaluations'] += 1
+        hsh = hashlib.sha1(reqs[k].encode()).digest()[:10]
+        tags, ms = classify(case)
+        if hsh not in res['seen']:
+            res['seen'].add(hsh)
+            if ms >= 16:
+                res['nontrivial'].add(hsh)
+        tags.append('live=%d' % case[0])
+        tags.append('state>=%02d' % (ms // 8 * 8))
+        for t in tags:
+            dist[t] = dist.get(t, 0) + 1
+        if len(res['samples']) < 8 and ms == 48 and k % 977 == 0:
+            res['samples'].append({'request': 'scan ' + reqs[k],
+                                   'reply': out_c[k]})
+        why_c = judge(case, out_c[k])
+        if why_c is not None and len(res['violations']) < 5:
+            res['violations'].append((
+                'scan() ' + why_c,
+                {'request': 'scan ' + reqs[k], 'c_reply': out_c[k],
+                 'model_reply': out_m[k],
+                 'how': 'echo "<request>" | h_scan (harness/h_scan.c)'}))
+        if out_m[k] != out_c[k]:
+            res['mism'] += 1
+            if res['mism'] <= 3:
+                res['log'].append(
+                    'C/model differ on: scan %s\n   C: %s\n   M: %s' %
+                    (reqs[k], out_c[k], out_m[k]))
+            if why_c is None and len(res['broken']) < 4:
+                res['broken'].append(
+                    'correspondence: scan %s: C "%s" vs model "%s"' %
+                    (reqs[k][:200], out_c[k], out_m[k]))
+        # Lean Spec oracle vs the python oracle
+        e, i, _ = oracle(*case)
+        want = '%d %s' % (e, 'none' if i is None else i)
+        if out_m[len(cases) + k] != want and len(res['broken']) < 4:
+            res['broken'].append('Spec oracle: occ %s: lean "%s", python "%s"'
+                                 % (reqs[k][:200], out_m[len(cases) + k],
+                                    want))
+    if c_died and not res['violations']:
+        res['broken'].append('correspondence: harness died: ' + err_c[-300:])
+    return res
 
 
 # --------------------------------------------------------------------- main
@@ -293,12 +385,12 @@ def main():
     lines = []
     for s in range(48):
         for b in (0, 1):
-            lines.append('mini %d %d' % (s, b))
+            lines.append('scan.mini %d %d' % (s, b))
     for s in range(49):
         for c in range(256):
-            lines.append('big %d %d' % (s, c))
+            lines.append('scan.big %d %d' % (s, c))
     nd = len(lines)
-    dl = ['delta %d %d' % (s, b) for s in range(49) for b in (0, 1)]
+    dl = ['scan.delta %d %d' % (s, b) for s in range(49) for b in (0, 1)]
     rc_c, out_c, err_c = batch([h], lines)
     rc_m, out_m, err_m = batch([drv], lines + dl)
     if rc_c != 0 or len(out_c) != nd:
@@ -312,7 +404,7 @@ def main():
         for idx, ln in enumerate(lines):
             _, a, b = ln.split()
             a, b = int(a), int(b)
-            want = DELTA[a][b] if ln.startswith('mini') else mini8(a, b)
+            want = DELTA[a][b] if ln.startswith('scan.mini') else mini8(a, b)
             evaluations += 1
             if out_c[idx] != str(want):
                 bad_tables += 1
@@ -342,91 +434,51 @@ def main():
 
     # ---- (H) scan(): campaign --------------------------------------------
     target = 20000 if ck.quick else 1000000
-    cases = systematic_cases(ck.rng, ck.quick)
-    nsys = len(cases)
-    while len(cases) < target:
-        cases.append(gen_random_case(ck.rng))
-    ck.log('campaign: %d cases (%d systematic)' % (len(cases), nsys))
+    sysc = systematic_cases(ck.rng, ck.quick)
+    nsys = len(sysc)
+    CH = 20000 if ck.quick else 50000
+    jobs = []
+    for lo in range(0, nsys, CH):
+        jobs.append((h, drv, sysc[lo:lo + CH], None, 0))
+    left = max(0, target - nsys)
+    while left > 0:
+        m = min(CH, left)
+        jobs.append((h, drv, None, ck.rng.getrandbits(64), m))
+        left -= m
+    ck.log('campaign: %d cases (%d systematic) in %d chunk(s)' %
+           (max(target, nsys), nsys, len(jobs)))
+    if len(jobs) > 2:
+        import multiprocessing
+        with multiprocessing.Pool(min(12, os.cpu_count() or 2)) as pool:
+            results = pool.map(run_chunk, jobs)
+    else:
+        results = [run_chunk(jb) for jb in jobs]
 
     dist = {}
-    broken0 = len(ck.broken)
     seen = set()
     nontrivial = set()
     samples = []
     reported = 0
     mism = 0
-    CH = 100000
-    for lo in range(0, len(cases), CH):
-        chunk = cases[lo:lo + CH]
-        reqs = [req(c) for c in chunk]
-        rc_c, out_c, err_c = batch([h], ['scan ' + r for r in reqs],
-                                   timeout=1800)
-        rc_m, out_m, err_m = batch(
-            [drv], ['scan ' + r for r in reqs] + ['occ ' + r for r in reqs],
-            timeout=1800)
-        if rc_m != 0 or len(out_m) != 2 * len(chunk):
-            ck.broken.append('correspondence: driver died (rc %s): %s' %
-                             (rc_m, err_m[-300:]))
-            break
-        c_died = rc_c != 0 or len(out_c) != len(chunk)
-        for k, case in enumerate(chunk):
-            if k >= len(out_c):
-                # the harness aborted on this request (sanitizer / assert)
-                ck.violation(
-                    'scan() aborted (sanitizer or assertion): ' +
-                    err_c[-400:].replace('\n', ' | '),
-                    {'request': 'scan ' + reqs[k],
-                     'how': 'echo "<request>" | h_scan (harness/h_scan.c)'})
-                reported += 1
-                break
-            evaluations += 1
-            hsh = hashlib.sha1(reqs[k].encode()).digest()[:10]
-            tags, ms = classify(case)
-            if hsh not in seen:
-                seen.add(hsh)
-                if ms >= 16:
-                    nontrivial.add(hsh)
-            for t in tags:
-                dist[t] = dist.get(t, 0) + 1
-            dist['live=%d' % case[0]] = dist.get('live=%d' % case[0], 0) + 1
-            dist['state>=%d' % (ms // 8 * 8)] = \
-                dist.get('state>=%d' % (ms // 8 * 8), 0) + 1
-            if len(samples) < 8 and ms == 48 and (lo + k) % 977 == 0:
-                samples.append({'request': 'scan ' + reqs[k],
-                                'reply': out_c[k]})
-            why_c = judge(case, out_c[k])
-            if why_c is not None:
-                if reported < 5:
-                    ck.violation(
-                        'scan() ' + why_c,
-                        {'request': 'scan ' + reqs[k], 'c_reply': out_c[k],
-                         'model_reply': out_m[k],
-                         'how': 'echo "<request>" | h_scan '
-                                '(harness/h_scan.c)'})
-                reported += 1
-            if out_m[k] != out_c[k]:
-                mism += 1
-                if mism <= 3:
-                    ck.log('C/model differ on: scan %s\n   C: %s\n   M: %s' %
-                           (reqs[k], out_c[k], out_m[k]))
-                if why_c is None:
-                    ck.broken.append(
-                        'correspondence: scan %s: C "%s" vs model "%s"' %
-                        (reqs[k][:200], out_c[k], out_m[k]))
-            # Lean Spec oracle vs the python oracle
-            e, i, _ = oracle(*case)
-            want = '%d %s' % (e, 'none' if i is None else i)
-            if out_m[len(chunk) + k] != want:
-                ck.broken.append('Spec oracle: occ %s: lean "%s", python "%s"'
-                                 % (reqs[k][:200], out_m[len(chunk) + k],
-                                    want))
-            if len(ck.broken) - broken0 > 5:
-                break
-        if c_died or len(ck.broken) - broken0 > 5 or reported >= 5:
-            if c_died and reported == 0:
-                ck.broken.append('correspondence: harness died: ' +
-                                 err_c[-300:])
-            break
+    for res in results:
+        evaluations += res['evaluations']
+        seen |= res['seen']
+        nontrivial |= res['nontrivial']
+        mism += res['mism']
+        for k, v in res['dist'].items():
+            dist[k] = dist.get(k, 0) + v
+        for smp in res['samples']:
+            if len(samples) < 8:
+                samples.append(smp)
+        for ln in res['log'][:3]:
+            ck.log(ln)
+        for what, replay in res['violations']:
+            reported += 1
+            if reported <= 5:
+                ck.violation(what, replay)
+        for b in res['broken']:
+            if len(ck.broken) < 12:
+                ck.broken.append(b)
 
     lives = sum(1 for k in dist if k.startswith('live='))
     ck.log('distribution: ' + ', '.join(
